@@ -115,6 +115,41 @@ impl SealCtx {
         self.seq = self.seq.wrapping_add(1);
         out
     }
+    /// MS-NLMP §3.4.2-3.4.4 as NEGOTIATED: without NTLMSSP_NEGOTIATE_SEAL the message travels in clear behind its signature,
+    /// without NTLMSSP_NEGOTIATE_KEY_EXCH the checksum is not encrypted
+    pub fn seal_mode(&mut self, msg: &[u8], seal: bool, kx: bool) -> Vec<u8> {
+        let seq = self.seq.to_le_bytes();
+        let enc = if seal { self.rc4.apply(msg) } else { msg.to_vec() };
+        let mut d = seq.to_vec();
+        d.extend_from_slice(msg);
+        let mac = hmac_md5(&self.sign_key, &d);
+        let chk = if kx { self.rc4.apply(&mac[0..8]) } else { mac[0..8].to_vec() };
+        let mut out = vec![1, 0, 0, 0];
+        out.extend_from_slice(&chk);
+        out.extend_from_slice(&seq);
+        out.extend_from_slice(&enc);
+        self.seq = self.seq.wrapping_add(1);
+        out
+    }
+    pub fn unseal_mode(&mut self, token: &[u8], seal: bool, kx: bool) -> Option<Vec<u8>> {
+        if token.len() < 16 || token[0..4] != [1, 0, 0, 0] {
+            return None;
+        }
+        let plain = if seal { self.rc4.apply(&token[16..]) } else { token[16..].to_vec() };
+        let chk = if kx { self.rc4.apply(&token[4..12]) } else { token[4..12].to_vec() };
+        let seq = &token[12..16];
+        if seq != self.seq.to_le_bytes() {
+            return None;
+        }
+        let mut d = seq.to_vec();
+        d.extend_from_slice(&plain);
+        let mac = hmac_md5(&self.sign_key, &d);
+        if chk != mac[0..8] {
+            return None;
+        }
+        self.seq = self.seq.wrapping_add(1);
+        Some(plain)
+    }
     /// like `unseal` but accepts whatever sequence number the message carries (the signature must still verify)
     pub fn unseal_any_seq(&mut self, token: &[u8]) -> Option<Vec<u8>> {
         if token.len() < 16 {
@@ -160,6 +195,18 @@ pub fn session_keys(exported: &[u8]) -> SessionKeys {
         server_sign: derive(exported, SERVER_SIGN_MAGIC),
         client_seal: derive(exported, CLIENT_SEAL_MAGIC),
         server_seal: derive(exported, SERVER_SEAL_MAGIC),
+    }
+}
+
+/// the keys of a session whose sealing keys were weakened as MS-NLMP 3.4.5.3 prescribes when NTLMSSP_NEGOTIATE_128 was not
+/// negotiated: only the first `seal_bytes` (7 with NEGOTIATE_56, else 5) bytes of the exported session key enter the seal keys
+pub fn session_keys_weakened(exported: &[u8], seal_bytes: usize) -> SessionKeys {
+    let n = seal_bytes.min(exported.len());
+    SessionKeys {
+        client_sign: derive(exported, CLIENT_SIGN_MAGIC),
+        server_sign: derive(exported, SERVER_SIGN_MAGIC),
+        client_seal: derive(&exported[..n], CLIENT_SEAL_MAGIC),
+        server_seal: derive(&exported[..n], SERVER_SEAL_MAGIC),
     }
 }
 
